@@ -607,16 +607,6 @@ pf_d2fixed_buffered_n(
         digits_length    = 1;
         integer_part_end = 1;
     }
-    else if (fmt_is_g)
-    {
-        const uint32_t significant_digits = decimalLength9(all_digits[0]) +
-            9*(integer_part_end - 1);
-
-        if (significant_digits >= precision)
-            precision = 0;
-        else
-            precision -= significant_digits;
-    }
 
     bool round_up = false;
     uint32_t lastDigit = 0; // to be cut off. Determines roundUp.
@@ -625,8 +615,6 @@ pf_d2fixed_buffered_n(
     unsigned fract_leading_zeroes = 0;
     unsigned fract_trailing_zeroes = 0;
 
-    // Might have to update precision with 'g' and recalculate, thus loop
-    bool first_try = true;
     while (e2 < 0) // store fractional part
     {
         const int32_t idx = -e2 / 16;
@@ -658,28 +646,6 @@ pf_d2fixed_buffered_n(
 
             digits = pf_mulShift_mod1e9(m2 << 8, POW10_SPLIT_2[p], j + 8);
             all_digits[digits_length++] = digits;
-        }
-
-        if (fmt_is_g && is_zero && first_try)
-        {
-            uint32_t total_leading_zeroes = fract_leading_zeroes;
-
-            size_t i;
-            for (i = integer_part_end; i < digits_length - 1; i++)
-            {
-                if (all_digits[i] == 0)
-                    total_leading_zeroes += 9;
-                else break;
-            }
-            total_leading_zeroes += 9 - decimalLength9(all_digits[i]);
-
-            if (total_leading_zeroes > 0)
-            {
-                precision += total_leading_zeroes;
-                digits_length = integer_part_end; // reset all_digits[]
-                first_try = false;
-                continue; // try again
-            }
         }
 
         if (i == blocks)
@@ -736,10 +702,6 @@ pf_d2fixed_buffered_n(
 
     if (round_up)
     {
-        uint32_t last_real_mag = 0;
-        if (fmt_is_g && is_zero)
-            last_real_mag = decimalLength9(all_digits[1]);
-
         all_digits[digits_length - 1] += 1;
 
         if (all_digits[digits_length - 1] == last_digit_magnitude)
@@ -763,16 +725,6 @@ pf_d2fixed_buffered_n(
 
         if (round_up)
             all_digits[0] += 1;
-
-        if (fmt_is_g && is_zero)
-        {
-            if (round_up) { // 0.xxx turned to 1.xxx
-                maximum--;
-            } else if (decimalLength9(all_digits[1]) > last_real_mag) {
-                maximum--;
-                all_digits[1] /= 10;
-            }
-        }
     }
 
     // Start writing digits for integer part
@@ -1136,7 +1088,12 @@ pf_d2exp_buffered_n(
 
     // Exponent is known now and we can determine the appropriate 'g' conversion
     if (fmt_is_g && ! (exp < -4 || exp >= (int32_t)precision))
-        return pf_d2fixed_buffered_n(result, n, fmt, d);
+    { // style f with P - 1 - X digits after the decimal point (X = exp)
+        PFFormatSpecifier fixed = fmt;
+        fixed.precision.option = PF_SOME;
+        fixed.precision.width  = precision - 1 - exp;
+        return pf_d2fixed_buffered_n(result, n, fixed, d);
+    }
 
     if ( ! printDecimalPoint)
     {
